@@ -154,10 +154,22 @@ func MapConditions(
 	}
 }
 
-func DeleteMappedConditions(_ context.Context, conditions *[]metav1.Condition) {
+// DeleteMappedConditions removes all mapped conditions, so they can be mapped again from their source.
+// The returned function must be called after mapping: it keeps the lastTransitionTime of conditions that
+// have been mapped again with an unchanged status, so reconciling without a change does not alter the status.
+func DeleteMappedConditions(_ context.Context, conditions *[]metav1.Condition) (restoreTransitionTimes func()) {
+	var deleted []metav1.Condition
 	for _, cond := range *conditions {
 		if IsMappedCondition(cond) {
+			deleted = append(deleted, cond)
 			meta.RemoveStatusCondition(conditions, cond.Type)
+		}
+	}
+	return func() {
+		for _, old := range deleted {
+			if cond := meta.FindStatusCondition(*conditions, old.Type); cond != nil && cond.Status == old.Status {
+				cond.LastTransitionTime = old.LastTransitionTime
+			}
 		}
 	}
 }
